@@ -189,11 +189,10 @@ theorem evalNode_no_panic_safe (c : Cfg) (ev : Bytes → VR Val) (rv : Bytes →
             split
             · simp
             · split
-              · rename_i a b
-                have := binary_ne_panic c o.sym a b
-                split
+              · split
                 · simp
-                · contradiction
+                · rename_i hq
+                  exact absurd hq (binary_ne_panic _ _ _ _)
                 · simp
                 · rename_i v _
                   have := applyUn_ne_panic c un v
